@@ -1,0 +1,36 @@
+//go:build verif
+
+// Contracts for the exovc verifier (/verif). Comment-only: with the tag off this file is not part
+// of the package, with the tag on it declares nothing.
+package types
+
+// C13: a submission is counted only if its decimals are those of the token the feeder feeds
+//@ func (Params).CheckDecimal
+//@   requires feederID < len(p.TokenFeeders) && p.TokenFeeders[feederID] != nil
+//@   requires p.TokenFeeders[feederID].TokenID < len(p.Tokens) && p.Tokens[p.TokenFeeders[feederID].TokenID] != nil
+//@   ensures[C13.cd.spec] result == (p.Tokens[p.TokenFeeders[feederID].TokenID].Decimal == decimal)
+
+// C13: a submission is counted only if its sources match the feeder's rule: with an explicit source list every
+// listed source is reported; with the "all sources" rule (first id 0) every valid source is reported.
+//@ define crRule(p, f)  = p.Rules[p.TokenFeeders[f].RuleID]
+//@ define crHas(prices, s) = exists(j, 0, len(prices), prices[j].SourceID == s)
+//@ func (Params).CheckRules
+//@   requires feederID < len(p.TokenFeeders) && p.TokenFeeders[feederID] != nil
+//@   requires p.TokenFeeders[feederID].RuleID < len(p.Rules) && crRule(p, feederID) != nil
+//@   requires forall(i, 0, len(p.Sources), p.Sources[i] != nil) && forall(j, 0, len(prices), prices[j] != nil)
+//@   ensures[C13.cr.listed] r0 && len(crRule(p, feederID).SourceIDs) > 0 && crRule(p, feederID).SourceIDs[0] != 0 ==>
+//@        forall(i, 0, len(crRule(p, feederID).SourceIDs), crHas(prices, crRule(p, feederID).SourceIDs[i]))
+//@   ensures[C13.cr.all]    r0 && len(crRule(p, feederID).SourceIDs) > 0 && crRule(p, feederID).SourceIDs[0] == 0 ==>
+//@        forall(i, 1, len(p.Sources), p.Sources[i].Valid ==> crHas(prices, i))
+//@   ensures[C13.cr.count]  r0 && len(crRule(p, feederID).SourceIDs) > 0 ==> len(prices) == len(crRule(p, feederID).SourceIDs)
+//@   ensures[C13.cr.err]    r0 <==> err == nil
+//@ loop #1
+//@   invariant[C13.cr.all] !notFound && -1 <= rangeindex && rangeindex < len(p.Sources)
+//@   invariant[C13.cr.all] forall(i, 1, rangeindex + 1, p.Sources[i].Valid ==> crHas(prices, i))
+//@ loop #2
+//@   invariant true
+//@ loop #3
+//@   invariant[C13.cr.listed] !notFound && -1 <= rangeindex && rangeindex < len(crRule(p, feederID).SourceIDs)
+//@   invariant[C13.cr.listed] forall(i, 0, rangeindex + 1, crHas(prices, crRule(p, feederID).SourceIDs[i]))
+//@ loop #4
+//@   invariant true
